@@ -4,7 +4,7 @@ import MV.Model.Halfedge
 Line protocol for the mesh engine (first token `mesh` already consumed by `Driver/Main.lean`).
 
   check <nV> <nT> <3*nT indices>
-      -> `ok genus <g> edges <E>`            (g = eulerGenus nV ts, E = numEdge ts = 3*nT/2)
+      -> `ok genus <g> edges <E> verts <V>` (V = nV, after compaction for checkmerge)            (g = eulerGenus nV ts, E = numEdge ts = 3*nT/2)
        | `bad index-out-of-range <tri>` | `bad degenerate-triangle <tri>`
        | `bad duplicate-edge <a> <b>`   | `bad unmatched-edge <a> <b>`
        | `bad unreferenced-vertex <v>`
@@ -43,7 +43,7 @@ def showErr : MeshErr → String
   | .unreferencedVertex v => s!"bad unreferenced-vertex {v}"
 
 def showOk (nV : Nat) (ts : List Tri) : String :=
-  s!"ok genus {eulerGenus nV ts} edges {numEdge ts}"
+  s!"ok genus {eulerGenus nV ts} edges {numEdge ts} verts {nV}"
 
 def handleCheck (a : Array Nat) : String :=
   if a.size < 2 then "bad-op" else
